@@ -159,9 +159,21 @@ def parse_nat_list(out):
 
 
 def ensure_generic_built():
-    """the generic development is built by setup_cmd; rebuild if any .v is newer than its .vo"""
-    p = subprocess.run(["make", "-q", "-C", COQDIR], capture_output=True, text=True) if os.path.exists(os.path.join(COQDIR, "Makefile")) else None
-    if p is None or p.returncode != 0:
+    """the generic development is built by setup_cmd; rebuild (bin/setup) if any listed .v is newer than its .vo or a .vo is missing"""
+    stale = not os.path.exists(os.path.join(COQDIR, "Makefile"))
+    try:
+        files = [l.strip() for l in open(os.path.join(COQDIR, "FILES")) if l.strip() and not l.startswith("#")]
+    except OSError:
+        files = []
+        stale = True
+    newest_vo = 0.0
+    for f in files:
+        v = os.path.join(COQDIR, f)
+        vo = v[:-2] + ".vo"
+        if not os.path.exists(vo) or os.path.getmtime(vo) < os.path.getmtime(v):
+            stale = True
+            break
+    if stale:
         r = subprocess.run(["timeout", "3000", os.path.join(VERIF, "bin", "setup")], capture_output=True, text=True)
         if r.returncode != 0:
             return False, r.stdout[-3000:] + r.stderr[-3000:]
